@@ -230,7 +230,7 @@ RESOLVE = {
 
 RESOLVE_LOCAL = {
     "props": ["C01", "C10"],
-    "anchors": [{"after": "prioritising_merge(&mut rrs, rrs_from_cache);", "at": "before", "proof": "let ghost rfc__ = rrs_from_cache@; proof { assert(question.qtype != QueryType::Wildcard ==> rrs@.len() == 0); if rrs@.len() == 0 { lemma_merged_empty(rfc__); assert(rrs@ =~= Seq::<ResourceRecord>::empty()); } }"},
+    "anchors": [{"after": "prioritising_merge(&mut rrs, rrs_from_cache);", "at": "before", "proof": "let ghost rfc__ = rrs_from_cache@; let ghost rz__ = rrs@; assert(final_cname is Some ==> rfc__.len() > 0 && rfc__[0].name == question.name && rfc__[0].rtype_with_data is CNAME); proof { assert(question.qtype != QueryType::Wildcard ==> rrs@.len() == 0); if rrs@.len() == 0 { lemma_merged_empty(rfc__); assert(rrs@ =~= Seq::<ResourceRecord>::empty()); } }"},
                 {"after": "prioritising_merge(&mut rrs, rrs_from_cache);", "proof": """proof {
     if question.qtype != QueryType::Wildcard {
         assert(rrs@ == rfc__);
@@ -238,6 +238,7 @@ RESOLVE_LOCAL = {
         assert(chain_ok(rfc__, question.name));
         assert(final_cname is Some ==> chain_k(rfc__, question.name, rfc__.len() as int));
     }
+    if final_cname is Some { lemma_alias_merged(rz__, rfc__, question.name); }
 }"""},
                 ],
     "contract": """    requires old(context).wf(),
@@ -260,6 +261,10 @@ RESOLVE_LOCAL = {
         guards_pass(old(context), *question) && zr(old(context), *question) is Some && zr(old(context), *question)->Some_0.1 is Answer && zone_soa_rr(zr(old(context), *question)->Some_0.0) is None
             && question.qtype != QueryType::Wildcard && zr(old(context), *question)->Some_0.1->rrs@.len() > 0 ==>
             r == Ok::<LocalResolutionResult, ResolutionError>(LocalResolutionResult::Done { resolved: ResolvedRecord::NonAuthoritative { rrs: zr(old(context), *question)->Some_0.1->rrs, soa_rr: None } }), // [C01:local_records_returned_exactly]
+        // C01: records a hosts file / non-authoritative zone holds come first and nothing of the same name and type is added to them (every question type)
+        guards_pass(old(context), *question) && zr(old(context), *question) is Some && zr(old(context), *question)->Some_0.1 is Answer && zone_soa_rr(zr(old(context), *question)->Some_0.0) is None && r is Ok ==>
+            local_first(zr(old(context), *question)->Some_0.1->rrs@, result_rrs(r->Ok_0)), // [C01:local_records_first_and_nothing_of_their_name_and_type_added]
+        r is Ok && r->Ok_0 is CNAME ==> has_alias(r->Ok_0->CNAME_rrs@, question.name), // [C10:partial_chain_holds_the_alias_of_the_question_name]
         // C01: a name error is only ever reported on the word of an authoritative local zone
         guards_pass(old(context), *question) && r is Ok && r->Ok_0 is Done && r->Ok_0->resolved is AuthoritativeNameError ==>
             zr(old(context), *question) is Some && zone_soa_rr(zr(old(context), *question)->Some_0.0) is Some
@@ -275,7 +280,7 @@ RESOLVE_LOCAL = {
         guards_pass(old(context), *question) && zr(old(context), *question) is Some && zr(old(context), *question)->Some_0.1 is CNAME ==>
             r is Ok && result_rrs(r->Ok_0).len() > 0 && result_rrs(r->Ok_0)[0] == zr(old(context), *question)->Some_0.1->rr, // [C10:chain_starts_at_the_question_name]
     decreases ctx_limit(old(context)) - old(context).question_stack@.len(),""",
-    "entry": BU + " broadcast use group_chain;",
+    "entry": BU + " broadcast use group_chain, group_local_first;",
 }
 
 SPEC2 = """
@@ -340,6 +345,87 @@ pub broadcast proof fn lemma_chain_concat_b(a: Seq<ResourceRecord>, b: Seq<Resou
     requires a.len() > 0, #[trigger] chain_k(a, q, a.len() as int), #[trigger] chain_k(b, a.last().rtype_with_data->CNAME_cname, k)
     ensures chain_ok(#[trigger] (a + b), q)
 { lemma_chain_concat(a, b, q, k); }
+// C01: records found locally keep their place: the answer starts with them and no later record has the name and type of one of them
+#[verifier::opaque]
+pub open spec fn local_first(z: Seq<ResourceRecord>, rr: Seq<ResourceRecord>) -> bool {
+    z.len() <= rr.len() && rr.subrange(0, z.len() as int) == z && forall|i: int| z.len() <= i < rr.len() ==> !has_key(z, key_of(#[trigger] rr[i]))
+}
+// ... unless the question name is itself an alias (its CNAME record is part of the answer and the rest belongs to the alias target)
+pub open spec fn has_alias(rr: Seq<ResourceRecord>, q: DomainName) -> bool { exists|i: int| 0 <= i < rr.len() && (#[trigger] rr[i]).name == q && rr[i].rtype_with_data is CNAME }
+pub proof fn lemma_merged_local_first(a: Seq<ResourceRecord>, b: Seq<ResourceRecord>)
+    ensures local_first(a, merged(a, b))
+{
+    reveal(merged); reveal(local_first);
+    let p = |rr: ResourceRecord| !has_key(a, key_of(rr));
+    let m = a + b.filter(p);
+    b.filter_lemma(p);
+    assert(m.subrange(0, a.len() as int) =~= a);
+    assert forall|i: int| a.len() <= i < m.len() implies !has_key(a, key_of(#[trigger] m[i])) by { assert(m[i] == b.filter(p)[i - a.len()]); assert(p(b.filter(p)[i - a.len()])); }
+}
+pub proof fn lemma_local_first_merged(z: Seq<ResourceRecord>, x: Seq<ResourceRecord>, t: Seq<ResourceRecord>)
+    requires local_first(z, x)
+    ensures local_first(z, merged(x, t))
+{
+    reveal(local_first);
+    lemma_merged_local_first(x, t);
+    let m = merged(x, t);
+    assert(m.subrange(0, z.len() as int) =~= z) by {
+        assert forall|i: int| 0 <= i < z.len() implies m[i] == z[i] by { assert(m.subrange(0, x.len() as int)[i] == x[i]); assert(x.subrange(0, z.len() as int)[i] == x[i]); }
+    }
+    assert forall|i: int| z.len() <= i < m.len() implies !has_key(z, key_of(#[trigger] m[i])) by {
+        if i < x.len() { assert(m.subrange(0, x.len() as int)[i] == m[i]); }
+        else if has_key(z, key_of(m[i])) {
+            let j = choose|j: int| 0 <= j < z.len() && key_of(#[trigger] z[j]) == key_of(m[i]);
+            assert(x.subrange(0, z.len() as int)[j] == x[j]);
+            assert(key_of(x[j]) == key_of(m[i]));
+        }
+    }
+}
+pub broadcast proof fn lemma_local_first_merged_b(z: Seq<ResourceRecord>, x: Seq<ResourceRecord>, t: Seq<ResourceRecord>)
+    requires #[trigger] local_first(z, x)
+    ensures local_first(z, #[trigger] merged(x, t))
+{ lemma_local_first_merged(z, x, t); }
+pub broadcast proof fn lemma_merged_local_first_b(a: Seq<ResourceRecord>, b: Seq<ResourceRecord>)
+    ensures local_first(a, #[trigger] merged(a, b))
+{ lemma_merged_local_first(a, b); }
+pub broadcast proof fn lemma_local_first_self(a: Seq<ResourceRecord>)
+    ensures #[trigger] local_first(a, a)
+{ reveal(local_first); assert(a.subrange(0, a.len() as int) =~= a); }
+pub broadcast proof fn lemma_alias_first(rr: Seq<ResourceRecord>, q: DomainName)
+    requires rr.len() > 0, rr[0].name == q, rr[0].rtype_with_data is CNAME
+    ensures #[trigger] has_alias(rr, q)
+{}
+// merging cannot lose the alias: if the merge drops the cached CNAME of the name, the local list already holds one
+pub proof fn lemma_alias_merged(a: Seq<ResourceRecord>, b: Seq<ResourceRecord>, q: DomainName)
+    requires b.len() > 0, b[0].name == q, b[0].rtype_with_data is CNAME
+    ensures has_alias(merged(a, b), q)
+{
+    reveal(merged); reveal(Seq::filter);
+    let p = |rr: ResourceRecord| !has_key(a, key_of(rr));
+    let m = a + b.filter(p);
+    if p(b[0]) {
+        lemma_filter_has(b, p, 0);
+        let w = choose|w: int| 0 <= w < b.filter(p).len() && b.filter(p)[w] == b[0];
+        assert(m[a.len() + w] == b[0]);
+    } else {
+        let j = choose|j: int| 0 <= j < a.len() && key_of(#[trigger] a[j]) == key_of(b[0]);
+        assert(m[j] == a[j]);
+        assert(a[j].name == q && spec_rtype_of(a[j].rtype_with_data) == RecordType::CNAME);
+        assert(a[j].rtype_with_data is CNAME);
+    }
+}
+pub proof fn lemma_filter_has(s: Seq<ResourceRecord>, p: spec_fn(ResourceRecord) -> bool, i: int)
+    requires 0 <= i < s.len(), p(s[i])
+    ensures s.filter(p).contains(s[i])
+    decreases s.len()
+{
+    reveal(Seq::filter);
+    if i == s.len() - 1 { assert(s.filter(p).last() == s[i]); }
+    else { lemma_filter_has(s.drop_last(), p, i); assert(s.drop_last()[i] == s[i]);
+           let w = choose|w: int| 0 <= w < s.drop_last().filter(p).len() && s.drop_last().filter(p)[w] == s[i];
+           if p(s.last()) { assert(s.filter(p)[w] == s[i]); } else { assert(s.filter(p)[w] == s[i]); } }
+}
+pub broadcast group group_local_first { lemma_local_first_merged_b, lemma_merged_local_first_b, lemma_local_first_self, lemma_alias_first }
 pub broadcast proof fn lemma_merged_nil_b(a: Seq<ResourceRecord>, b: Seq<ResourceRecord>)
     requires a.len() == 0
     ensures #[trigger] merged(a, b) == b
